@@ -63,10 +63,21 @@ theorem isDigit_hd (r : List Nat) : Sonic.Model.Number.isDigit (hd r) = !decide 
   by_cases h : takeDigits r = []
   · simp [h, (takeDigits_eq_nil r).1 h]
   · cases hh : isD (hd r) with
-    | true => simp [h]
+    | true => simp [h]; exact hh
     | false => exact absurd ((takeDigits_eq_nil r).2 hh) h
 
 /-- label `double_exp` in closed form; the pointer is at the `e` -/
+theorem doubleExp_eq' (neg : Bool) (s : List Nat) (i man : Nat) (exp10 : Int) (trunc : Bool) :
+    doubleExp neg s i man exp10 trunc =
+      if takeDigits (s.tail.drop (expSign s.tail).2) = [] then .ret (.err errInvalidChar (i + 1 + (expSign s.tail).2))
+      else .float { neg := neg, man := man,
+                    exp10 := exp10 + capAcc 0 (takeDigits (s.tail.drop (expSign s.tail).2)) * (expSign s.tail).1,
+                    trunc := trunc,
+                    next := i + 1 + (expSign s.tail).2 + (takeDigits (s.tail.drop (expSign s.tail).2)).length } := by
+  unfold doubleExp
+  simp only [sign_step, isDigit_hd, expLoop_eq]
+  simp
+
 theorem doubleExp_eq (neg : Bool) (c : Nat) (r : List Nat) (i man : Nat) (exp10 : Int) (trunc : Bool) :
     doubleExp neg (c :: r) i man exp10 trunc =
       if takeDigits (r.drop (expSign r).2) = [] then .ret (.err errInvalidChar (i + 1 + (expSign r).2))
@@ -74,18 +85,23 @@ theorem doubleExp_eq (neg : Bool) (c : Nat) (r : List Nat) (i man : Nat) (exp10 
                     exp10 := exp10 + capAcc 0 (takeDigits (r.drop (expSign r).2)) * (expSign r).1,
                     trunc := trunc,
                     next := i + 1 + (expSign r).2 + (takeDigits (r.drop (expSign r).2)).length } := by
-  unfold doubleExp
-  simp only [List.tail_cons, sign_step, isDigit_hd, expLoop_eq]
-  by_cases h : takeDigits (r.drop (expSign r).2) = [] <;> simp [h]
+  rw [doubleExp_eq']; rfl
 
 /-- `zeroExp` in closed form -/
+theorem zeroExp_eq' (neg : Bool) (s : List Nat) (i : Nat) :
+    zeroExp neg s i =
+      if takeDigits (s.tail.drop (expSign s.tail).2) = [] then .ret (.err errInvalidChar (i + 1 + (expSign s.tail).2))
+      else .ret (.ok (.real (zeroBits neg))
+        (i + 1 + (expSign s.tail).2 + (takeDigits (s.tail.drop (expSign s.tail).2)).length) .zero) := by
+  unfold zeroExp
+  simp only [sign_step', isDigit_hd, skipDigits_eq]
+  simp
+
 theorem zeroExp_eq (neg : Bool) (c : Nat) (r : List Nat) (i : Nat) :
     zeroExp neg (c :: r) i =
       if takeDigits (r.drop (expSign r).2) = [] then .ret (.err errInvalidChar (i + 1 + (expSign r).2))
       else .ret (.ok (.real (zeroBits neg)) (i + 1 + (expSign r).2 + (takeDigits (r.drop (expSign r).2)).length) .zero) := by
-  unfold zeroExp
-  simp only [List.tail_cons, sign_step', isDigit_hd, skipDigits_eq]
-  by_cases h : takeDigits (r.drop (expSign r).2) = [] <;> simp [h]
+  rw [zeroExp_eq']; rfl
 
 theorem expSign_abs (r : List Nat) : (expSign r).1 = 1 ∨ (expSign r).1 = -1 := by
   unfold expSign; split <;> simp
@@ -104,7 +120,7 @@ theorem expTail_none (neg : Bool) (s : List Nat) (i man : Nat) (exp10 : Int) (tr
     · have hE : isE c = true := (isE_iff c).2 hc
       simp only [scanExp, hc, if_true] at h
       by_cases hd0 : takeDigits (r.drop (expSign r).2) = []
-      · exact ⟨_, by simp [expTail, hd, hE, doubleExp_eq, hd0]⟩
+      · exact ⟨i + 1 + (expSign r).2, by simp [expTail, hd, hE, doubleExp_eq, hd0]⟩
       · simp [hd0] at h
     · simp [scanExp, hc] at h
 
